@@ -577,4 +577,649 @@ theorem compileWith_mono {pre : Bool} {fuel : Nat} {o : Orders} {src : Program} 
       · rw [hs] at hg'; exact absurd hg'.symm hr
       · rw [← hs]; exact hg'
 
+/-! ### totality for programs without constants and defaults: an explicit measure -/
+
+def TExpr.size : TExpr → Nat
+  | .base _ _ => 1
+  | .list _ e => e.size + 1
+  | .set _ e => e.size + 1
+  | .map _ k v => k.size + v.size + 1
+  | .ref n => n.length + 2
+
+def tFieldsSize : List GField → Nat
+  | [] => 0
+  | f :: rest => f.ty.size + 1 + tFieldsSize rest
+
+def noDflt (fs : List GField) : Bool := fs.all (fun f => f.dflt.isNone)
+
+def defWeight : TDef → Nat
+  | .typedef t => t.size + 1
+  | .struct _ fs => tFieldsSize fs + 1
+  | .enum _ => 0
+
+def funcWeight (g : GFunc) : Nat :=
+  tFieldsSize g.args + tFieldsSize g.excs + (match g.ret with | some e => e.size | none => 0) + 1
+
+def svcWeight (s : GService) : Nat :=
+  (s.funcs.map funcWeight).sum + (match s.parent with | some n => n.length | none => 0) + 1
+
+def modWeight (m : Mod) : Nat :=
+  (m.types.map (fun t => defWeight t.2)).sum + (m.services.map (fun s => svcWeight s.2)).sum
+
+/-- `D`: strictly above the size of every definition body, function signature and parent name -/
+def progWeight (p : GProg) : Nat := (p.map modWeight).sum + 2
+
+/-- no constants, no default values -/
+def typesOnlyB (p : GProg) : Bool :=
+  p.all fun m =>
+    m.consts.isEmpty &&
+    m.types.all (fun t => match t.2 with | .struct _ fs => noDflt fs | _ => true) &&
+    m.services.all (fun s => s.2.funcs.all (fun g => noDflt g.args && noDflt g.excs))
+
+def TypesOnly (p : GProg) : Prop := typesOnlyB p = true
+
+instance (p : GProg) : Decidable (TypesOnly p) := by unfold TypesOnly; infer_instance
+
+def allTypeKeys (p : GProg) : List (Nat × Name) :=
+  (List.range p.length).flatMap (fun m => (modAt p m).types.map (fun t => (m, t.1)))
+
+def allSvcKeys (p : GProg) : List (Nat × Name) :=
+  (List.range p.length).flatMap (fun m => (modAt p m).services.map (fun t => (m, t.1)))
+
+/-- fuel that suffices for every `Link` call of a program without constants and defaults -/
+def linkBound (p : GProg) : Nat :=
+  ((allTypeKeys p).length + (allSvcKeys p).length + 2) * progWeight p + 4
+
+theorem le_sum_of_mem {l : List Nat} {x : Nat} (h : x ∈ l) : x ≤ l.sum := by
+  induction l with
+  | nil => cases h
+  | cons a l ih =>
+    simp only [List.sum_cons]
+    simp only [List.mem_cons] at h
+    rcases h with rfl | h
+    · omega
+    · have := ih h; omega
+
+theorem mem_of_alookup {α β : Type} [DecidableEq α] {k : α} {v : β} :
+    ∀ {l : List (α × β)}, alookup k l = some v → (k, v) ∈ l := by
+  intro l
+  induction l with
+  | nil => intro h; cases h
+  | cons p rest ih =>
+    intro h
+    obtain ⟨k', v'⟩ := p
+    unfold alookup at h
+    split at h
+    · rename_i hk; cases h; subst hk; exact List.mem_cons_self
+    · exact List.mem_cons_of_mem _ (ih h)
+
+theorem modAt_mem {p : GProg} {m : Nat} (h : modAt p m ≠ Mod.empty) : m < p.length ∧ modAt p m ∈ p := by
+  unfold modAt at h ⊢
+  by_cases hm : m < p.length
+  · refine ⟨hm, ?_⟩
+    rw [List.getD_eq_getElem?_getD, List.getElem?_eq_getElem hm]
+    simp
+  · exfalso
+    apply h
+    rw [List.getD_eq_getElem?_getD, List.getElem?_eq_none (by omega)]
+    rfl
+
+theorem lookupType_mod {p : GProg} {m : Nat} {n : Name} {d : TDef} (h : lookupType p m n = some d) :
+    m < p.length ∧ modAt p m ∈ p ∧ (n, d) ∈ (modAt p m).types := by
+  have hm := mem_of_alookup h
+  have hne : modAt p m ≠ Mod.empty := by
+    intro he; rw [he] at hm; simp [Mod.empty] at hm
+  exact ⟨(modAt_mem hne).1, (modAt_mem hne).2, hm⟩
+
+theorem lookupService_mod {p : GProg} {m : Nat} {n : Name} {s : GService} (h : lookupService p m n = some s) :
+    m < p.length ∧ modAt p m ∈ p ∧ (n, s) ∈ (modAt p m).services := by
+  have hm := mem_of_alookup h
+  have hne : modAt p m ≠ Mod.empty := by
+    intro he; rw [he] at hm; simp [Mod.empty] at hm
+  exact ⟨(modAt_mem hne).1, (modAt_mem hne).2, hm⟩
+
+theorem defWeight_lt {p : GProg} {m : Nat} {n : Name} {d : TDef} (h : lookupType p m n = some d) :
+    defWeight d + 2 ≤ progWeight p := by
+  obtain ⟨_, hmod, hd⟩ := lookupType_mod h
+  have h1 : defWeight d ≤ ((modAt p m).types.map (fun t => defWeight t.2)).sum :=
+    le_sum_of_mem (List.mem_map.2 ⟨(n, d), hd, rfl⟩)
+  have h2 : modWeight (modAt p m) ≤ (p.map modWeight).sum := le_sum_of_mem (List.mem_map.2 ⟨_, hmod, rfl⟩)
+  unfold progWeight modWeight at *
+  omega
+
+theorem svcWeight_lt {p : GProg} {m : Nat} {n : Name} {s : GService} (h : lookupService p m n = some s) :
+    svcWeight s + 2 ≤ progWeight p := by
+  obtain ⟨_, hmod, hd⟩ := lookupService_mod h
+  have h1 : svcWeight s ≤ ((modAt p m).services.map (fun t => svcWeight t.2)).sum :=
+    le_sum_of_mem (List.mem_map.2 ⟨(n, s), hd, rfl⟩)
+  have h2 : modWeight (modAt p m) ≤ (p.map modWeight).sum := le_sum_of_mem (List.mem_map.2 ⟨_, hmod, rfl⟩)
+  unfold progWeight modWeight at *
+  omega
+
+theorem typesOnly_mod {p : GProg} (ht : TypesOnly p) {md : Mod} (h : md ∈ p) :
+    md.consts = [] ∧
+    (∀ n k fs, (n, TDef.struct k fs) ∈ md.types → noDflt fs = true) ∧
+    (∀ n s, (n, s) ∈ md.services → ∀ g ∈ s.funcs, noDflt g.args = true ∧ noDflt g.excs = true) := by
+  unfold TypesOnly typesOnlyB at ht
+  have := List.all_eq_true.1 ht md h
+  simp only [Bool.and_eq_true] at this
+  obtain ⟨⟨h1, h2⟩, h3⟩ := this
+  refine ⟨by simpa using h1, ?_, ?_⟩
+  · intro n k fs hm
+    have := List.all_eq_true.1 h2 _ hm
+    simpa using this
+  · intro n s hm g hg
+    have := List.all_eq_true.1 (List.all_eq_true.1 h3 _ hm) g hg
+    simpa using this
+
+/-- every unflagged named type is in `U` -/
+def Cover (p : GProg) (σ : St) (U : List (Nat × Name)) : Prop :=
+  ∀ m n, (lookupType p m n).isSome = true → σ.tflag.contains (m, n) = false → (m, n) ∈ U
+
+def FlagsLe (σ σ' : St) : Prop := ∀ k, σ.tflag.contains k = true → σ'.tflag.contains k = true
+
+theorem Cover.mono {p : GProg} {σ σ' : St} {U : List (Nat × Name)} (h : Cover p σ U) (hf : FlagsLe σ σ') :
+    Cover p σ' U := by
+  intro m n hl hc
+  apply h m n hl
+  cases hcc : σ.tflag.contains (m, n) with
+  | false => rfl
+  | true => rw [hf _ hcc] at hc; cases hc
+
+theorem allTypeKeys_cover (p : GProg) (σ : St) : Cover p σ (allTypeKeys p) := by
+  intro m n hl _
+  cases hd : lookupType p m n with
+  | none => rw [hd] at hl; cases hl
+  | some d =>
+    obtain ⟨hm, _, hmem⟩ := lookupType_mod hd
+    unfold allTypeKeys
+    rw [List.mem_flatMap]
+    exact ⟨m, List.mem_range.2 hm, List.mem_map.2 ⟨(n, d), hmem, rfl⟩⟩
+
+/-- `l` without every occurrence of `k` -/
+def dropKey {α : Type} [DecidableEq α] (k : α) : List α → List α
+  | [] => []
+  | a :: l => if a = k then dropKey k l else a :: dropKey k l
+
+theorem dropKey_length_le {α : Type} [DecidableEq α] (k : α) (l : List α) : (dropKey k l).length ≤ l.length := by
+  induction l with
+  | nil => simp [dropKey]
+  | cons a l ih =>
+    unfold dropKey
+    split
+    · simp only [List.length_cons]; omega
+    · simp only [List.length_cons]; omega
+
+theorem dropKey_length {α : Type} [DecidableEq α] {l : List α} {k : α} (h : k ∈ l) :
+    (dropKey k l).length + 1 ≤ l.length := by
+  induction l with
+  | nil => cases h
+  | cons a l ih =>
+    unfold dropKey
+    simp only [List.mem_cons] at h
+    split
+    · have := dropKey_length_le k l
+      simp only [List.length_cons]; omega
+    · rename_i hak
+      rcases h with h | h
+      · exact absurd h.symm hak
+      · have := ih h
+        simp only [List.length_cons]; omega
+
+theorem mem_dropKey {α : Type} [DecidableEq α] {l : List α} {k x : α} (hx : x ∈ l) (hne : x ≠ k) :
+    x ∈ dropKey k l := by
+  induction l with
+  | nil => cases hx
+  | cons a l ih =>
+    unfold dropKey
+    simp only [List.mem_cons] at hx
+    split
+    · rename_i hak
+      rcases hx with hx | hx
+      · subst hx; exact absurd hak hne
+      · exact ih hx
+    · rcases hx with hx | hx
+      · subst hx; exact List.mem_cons_self
+      · exact List.mem_cons_of_mem _ (ih hx)
+
+/-- verdict of a `Link` call that did not run out of fuel and only added flags -/
+def Good (σ : St) (r : Res St) : Prop := r = .err ∨ ∃ σ', r = .ok σ' ∧ FlagsLe σ σ'
+def GoodT (σ : St) (r : Res (St × LType)) : Prop := r = .err ∨ ∃ σ' lt, r = .ok (σ', lt) ∧ FlagsLe σ σ'
+
+theorem FlagsLe.refl (σ : St) : FlagsLe σ σ := fun _ h => h
+theorem FlagsLe.trans {a b c : St} (h₁ : FlagsLe a b) (h₂ : FlagsLe b c) : FlagsLe a c := fun k h => h₂ k (h₁ k h)
+
+theorem Good.ne_fuel {σ : St} {r : Res St} (h : Good σ r) : r ≠ .fuel := by
+  rcases h with h | ⟨_, h, _⟩ <;> rw [h] <;> intro hh <;> cases hh
+
+theorem GoodT.ne_fuel {σ : St} {r : Res (St × LType)} (h : GoodT σ r) : r ≠ .fuel := by
+  rcases h with h | ⟨_, _, h, _⟩ <;> rw [h] <;> intro hh <;> cases hh
+
+/-- the three type-linking functions terminate within `|U| * D + size` where `U` covers the
+named types not yet flagged -/
+def TypesTotal (p : GProg) (f : Nat) : Prop :=
+  (∀ m e σ U, Cover p σ U → U.length * progWeight p + e.size < f → GoodT σ (linkTy f p m e σ)) ∧
+  (∀ m n σ U, Cover p σ U → U.length * progWeight p < f → Good σ (linkNamed f p m n σ)) ∧
+  (∀ o m i fs σ U, noDflt fs = true → Cover p σ U → U.length * progWeight p + tFieldsSize fs < f →
+      Good σ (linkFields f p o m i fs σ))
+
+theorem ownerMark_tflag (o : FOwner) (i : Nat) (σ : St) : (ownerMark o i σ).tflag = σ.tflag := by
+  cases o <;> rfl
+
+theorem typesTotal (p : GProg) (ht : TypesOnly p) : ∀ f, TypesTotal p f := by
+  intro f
+  induction f with
+  | zero => exact ⟨fun _ _ _ _ _ h => by omega, fun _ _ _ _ _ h => by omega, fun _ _ _ _ _ _ _ _ h => by omega⟩
+  | succ f ih =>
+    obtain ⟨iTy, iNamed, iFields⟩ := ih
+    refine ⟨?_, ?_, ?_⟩
+    · -- linkTy
+      intro m e σ U hc hf
+      cases e with
+      | base o b => right; exact ⟨σ, .base o b, by simp [linkTy], FlagsLe.refl σ⟩
+      | list o e =>
+        simp only [linkTy]
+        rcases iTy m e σ U hc (by simp only [TExpr.size] at hf; omega) with h | ⟨σ1, lt, h, hle⟩
+        · rw [h]; left; rfl
+        · rw [h]; right; exact ⟨σ1, _, rfl, hle⟩
+      | set o e =>
+        simp only [linkTy]
+        rcases iTy m e σ U hc (by simp only [TExpr.size] at hf; omega) with h | ⟨σ1, lt, h, hle⟩
+        · rw [h]; left; rfl
+        · rw [h]; right; exact ⟨σ1, _, rfl, hle⟩
+      | map o k v =>
+        simp only [linkTy]
+        rcases iTy m k σ U hc (by simp only [TExpr.size] at hf; omega) with h | ⟨σ1, lt, h, hle⟩
+        · rw [h]; left; rfl
+        · rw [h]
+          simp only
+          rcases iTy m v σ1 U (hc.mono hle) (by simp only [TExpr.size] at hf; omega) with h2 | ⟨σ2, lt2, h2, hle2⟩
+          · rw [h2]; left; rfl
+          · rw [h2]; right; exact ⟨σ2, _, rfl, hle.trans hle2⟩
+      | ref n =>
+        simp only [linkTy]
+        cases hl : lookupType p m n with
+        | some d =>
+          simp only
+          rcases iNamed m n σ U hc (by simp only [TExpr.size] at hf; omega) with h | ⟨σ1, h, hle⟩
+          · rw [h]; left; rfl
+          · rw [h]; right; exact ⟨σ1, _, rfl, hle⟩
+        | none =>
+          simp only
+          cases hs : splitInclude n with
+          | none => left; rfl
+          | some pr =>
+            obtain ⟨mn, inm⟩ := pr
+            simp only
+            cases hi : lookupInclude p m mn with
+            | none => left; rfl
+            | some m' =>
+              have := splitInclude_length hs
+              exact iTy m' (.ref inm) σ U hc (by simp only [TExpr.size] at hf ⊢; omega)
+    · -- linkNamed
+      intro m n σ U hc hf
+      simp only [linkNamed]
+      cases hl : lookupType p m n with
+      | none => left; rfl
+      | some d =>
+        have hw := defWeight_lt hl
+        cases d with
+        | enum items => right; exact ⟨σ, rfl, FlagsLe.refl σ⟩
+        | typedef target =>
+          simp only
+          cases hflag : σ.tflag.contains (m, n) with
+          | true => simp only [if_true]; right; exact ⟨σ, rfl, FlagsLe.refl σ⟩
+          | false =>
+            simp only [Bool.false_eq_true, if_false]
+            have hmem : (m, n) ∈ U := hc m n (by rw [hl]; rfl) hflag
+            have hlen := dropKey_length hmem
+            have hc' : Cover p { σ with tflag := (m, n) :: σ.tflag } (dropKey (m, n) U) := by
+              intro m' n' hl' hc''
+              have hne : (m', n') ≠ (m, n) := by
+                intro heq
+                rw [heq] at hc''
+                simp at hc''
+              have h2 : σ.tflag.contains (m', n') = false := by
+                simp only [List.contains_cons, Bool.or_eq_false_iff] at hc''
+                exact hc''.2
+              exact mem_dropKey (hc m' n' hl' h2) hne
+            have hle0 : FlagsLe σ { σ with tflag := (m, n) :: σ.tflag } := by
+              intro k hk
+              simp only [List.contains_cons, Bool.or_eq_true]
+              exact Or.inr hk
+            have hmul : (dropKey (m, n) U).length * progWeight p + progWeight p
+                ≤ U.length * progWeight p := by
+              have := Nat.mul_le_mul_right (progWeight p) hlen
+              rw [Nat.add_mul, Nat.one_mul] at this
+              exact this
+            rcases iTy m target _ _ hc' (by simp only [defWeight] at hw; omega) with h | ⟨σ1, lt, h, hle⟩
+            · rw [h]; left; rfl
+            · rw [h]; right
+              exact ⟨_, rfl, fun k hk => hle k (hle0 k hk)⟩
+        | struct kind fields =>
+          simp only
+          cases hflag : σ.tflag.contains (m, n) with
+          | true => simp only [if_true]; right; exact ⟨σ, rfl, FlagsLe.refl σ⟩
+          | false =>
+            simp only [Bool.false_eq_true, if_false]
+            have hmem : (m, n) ∈ U := hc m n (by rw [hl]; rfl) hflag
+            have hlen := dropKey_length hmem
+            have hc' : Cover p { σ with tflag := (m, n) :: σ.tflag } (dropKey (m, n) U) := by
+              intro m' n' hl' hc''
+              have hne : (m', n') ≠ (m, n) := by
+                intro heq
+                rw [heq] at hc''
+                simp at hc''
+              have h2 : σ.tflag.contains (m', n') = false := by
+                simp only [List.contains_cons, Bool.or_eq_false_iff] at hc''
+                exact hc''.2
+              exact mem_dropKey (hc m' n' hl' h2) hne
+            have hle0 : FlagsLe σ { σ with tflag := (m, n) :: σ.tflag } := by
+              intro k hk
+              simp only [List.contains_cons, Bool.or_eq_true]
+              exact Or.inr hk
+            have hmul : (dropKey (m, n) U).length * progWeight p + progWeight p
+                ≤ U.length * progWeight p := by
+              have := Nat.mul_le_mul_right (progWeight p) hlen
+              rw [Nat.add_mul, Nat.one_mul] at this
+              exact this
+            obtain ⟨_, hmod, hmemd⟩ := lookupType_mod hl
+            have hnd : noDflt fields = true := (typesOnly_mod ht hmod).2.1 n kind fields hmemd
+            rcases iFields (.strct m n) m 0 fields _ _ hnd hc' (by simp only [defWeight] at hw; omega) with h | ⟨σ1, h, hle⟩
+            · rw [h]; left; rfl
+            · rw [h]; right
+              exact ⟨_, rfl, fun k hk => hle k (hle0 k hk)⟩
+    · -- linkFields
+      intro o m i fs σ U hnd hc hf
+      cases fs with
+      | nil => right; exact ⟨σ, by simp [linkFields], FlagsLe.refl σ⟩
+      | cons fld rest =>
+        simp only [linkFields]
+        simp only [noDflt, List.all_cons, Bool.and_eq_true] at hnd
+        obtain ⟨hd, hrest⟩ := hnd
+        have hdn : fld.dflt = none := by
+          cases hdd : fld.dflt with
+          | none => rfl
+          | some d => rw [hdd] at hd; cases hd
+        simp only [tFieldsSize] at hf
+        rcases iTy m fld.ty σ U hc (by omega) with h | ⟨σ1, lt, h, hle⟩
+        · rw [h]; left; rfl
+        · rw [h]
+          simp only [hdn]
+          have hle1 : FlagsLe σ (ownerMark o i σ1) := by
+            intro k hk; rw [ownerMark_tflag]; exact hle k hk
+          rcases iFields o m (i + 1) rest (ownerMark o i σ1) U hrest (hc.mono hle1) (by omega) with h2 | ⟨σ2, h2, hle2⟩
+          · rw [h2]; left; rfl
+          · rw [h2]; right; exact ⟨σ2, rfl, hle1.trans hle2⟩
+
+theorem forEach_ne_fuel {α : Type} (g : α → St → Res St) (hg : ∀ x σ, g x σ ≠ .fuel) :
+    ∀ (xs : List α) (σ : St), forEach g xs σ ≠ .fuel := by
+  intro xs
+  induction xs with
+  | nil => intro σ h; simp [forEach] at h
+  | cons x xs ih =>
+    intro σ
+    simp only [forEach]
+    cases h : g x σ with
+    | ok σ1 => exact ih σ1
+    | err => intro hh; cases hh
+    | fuel => exact absurd h (hg x σ)
+
+theorem linkFunc_ne_fuel (p : GProg) (ht : TypesOnly p) (fuel m : Nat) (svc : Name) (fn : GFunc) (σ : St)
+    (hnd : noDflt fn.args = true ∧ noDflt fn.excs = true)
+    (hb : (allTypeKeys p).length * progWeight p + funcWeight fn < fuel) :
+    linkFunc fuel p m svc fn σ ≠ .fuel := by
+  obtain ⟨iTy, _, iFields⟩ := typesTotal p ht fuel
+  unfold funcWeight at hb
+  unfold linkFunc
+  split
+  · intro h; cases h
+  · rcases iFields (.args m svc fn.name) m 0 fn.args { σ with fflag := (m, svc, fn.name) :: σ.fflag }
+        (allTypeKeys p) hnd.1 (allTypeKeys_cover p _) (by omega) with h | ⟨σ1, h, _⟩
+    · rw [h]; intro hh; cases hh
+    · rw [h]
+      simp only
+      split
+      · intro hh; cases hh
+      · have hex : ∀ σ2 : St, (match linkFields fuel p (.excs m svc fn.name) m 0 fn.excs σ2 with
+            | .ok σ3 => if excsOk p m fn.excs = true then Res.ok σ3 else Res.err
+            | .err => Res.err
+            | .fuel => Res.fuel) ≠ .fuel := by
+          intro σ2
+          rcases iFields (.excs m svc fn.name) m 0 fn.excs σ2 (allTypeKeys p) hnd.2 (allTypeKeys_cover p _) (by omega)
+            with h3 | ⟨σ3, h3, _⟩
+          · rw [h3]; intro hh; cases hh
+          · rw [h3]
+            simp only
+            split <;> (intro hh; cases hh)
+        cases hrr : fn.ret with
+        | none => exact hex σ1
+        | some e =>
+          rw [hrr] at hb
+          simp only at hb ⊢
+          rcases iTy m e σ1 (allTypeKeys p) (allTypeKeys_cover p _) (by omega) with h2 | ⟨σ2, lt, h2, _⟩
+          · rw [h2]; intro hh; cases hh
+          · rw [h2]; exact hex σ2
+
+/-- every unflagged service is in `V` -/
+def CoverS (p : GProg) (σ : St) (V : List (Nat × Name)) : Prop :=
+  ∀ m n, (lookupService p m n).isSome = true → σ.vflag.contains (m, n) = false → (m, n) ∈ V
+
+theorem allSvcKeys_cover (p : GProg) (σ : St) : CoverS p σ (allSvcKeys p) := by
+  intro m n hl _
+  cases hd : lookupService p m n with
+  | none => rw [hd] at hl; cases hl
+  | some d =>
+    obtain ⟨hm, _, hmem⟩ := lookupService_mod hd
+    unfold allSvcKeys
+    rw [List.mem_flatMap]
+    exact ⟨m, List.mem_range.2 hm, List.mem_map.2 ⟨(n, d), hmem, rfl⟩⟩
+
+theorem funcWeight_le_svc {s : GService} {g : GFunc} (h : g ∈ s.funcs) : funcWeight g < svcWeight s := by
+  unfold svcWeight
+  have := le_sum_of_mem (List.mem_map.2 ⟨g, h, rfl⟩ : funcWeight g ∈ s.funcs.map funcWeight)
+  omega
+
+theorem mem_of_findFunc {n : Name} : ∀ {fs : List GFunc} {g : GFunc}, findFunc n fs = some g → g ∈ fs := by
+  intro fs
+  induction fs with
+  | nil => intro g h; cases h
+  | cons a fs ih =>
+    intro g h
+    unfold findFunc at h
+    split at h
+    · cases h; exact List.mem_cons_self
+    · exact List.mem_cons_of_mem _ (ih h)
+
+/-- service linking terminates: `T` for the types a function may link, then `D` per service
+not yet flagged, then the length of the parent name still to be resolved -/
+def SvcTotal (p : GProg) (o : Orders) (f : Nat) : Prop :=
+  (∀ m n σ V, CoverS p σ V →
+      (allTypeKeys p).length * progWeight p + progWeight p + V.length * progWeight p < f →
+      linkService f p o m n σ ≠ .fuel) ∧
+  (∀ m name σ V, CoverS p σ V →
+      (allTypeKeys p).length * progWeight p + progWeight p + V.length * progWeight p + name.length + 1 < f →
+      resolveSvc f p o m name σ ≠ .fuel)
+
+theorem svcTotal (p : GProg) (ht : TypesOnly p) (o : Orders) : ∀ f, SvcTotal p o f := by
+  intro f
+  induction f with
+  | zero => exact ⟨fun _ _ _ _ _ h => by omega, fun _ _ _ _ _ h => by omega⟩
+  | succ f ih =>
+    obtain ⟨iS, iR⟩ := ih
+    refine ⟨?_, ?_⟩
+    · intro m n σ V hc hf
+      simp only [linkService]
+      cases hl : lookupService p m n with
+      | none => intro h; cases h
+      | some s =>
+        simp only
+        have hw := svcWeight_lt hl
+        obtain ⟨_, hmod, hmem⟩ := lookupService_mod hl
+        have hfuncs : ∀ (fname : Name) (σ' : St),
+            (match findFunc fname s.funcs with
+              | some g => linkFunc f p m n g σ'
+              | none => Res.ok σ') ≠ .fuel := by
+          intro fname σ'
+          cases hfind : findFunc fname s.funcs with
+          | none => intro h; cases h
+          | some g =>
+            simp only
+            have hg := mem_of_findFunc hfind
+            have := funcWeight_le_svc hg
+            exact linkFunc_ne_fuel p ht f m n g σ' ((typesOnly_mod ht hmod).2.2 n s hmem g hg) (by omega)
+        cases hflag : σ.vflag.contains (m, n) with
+        | true => simp only [if_true]; intro h; cases h
+        | false =>
+          simp only [Bool.false_eq_true, if_false]
+          cases hp : s.parent with
+          | none => exact forEach_ne_fuel _ (fun x σ' => hfuncs x σ') _ _
+          | some pname =>
+            simp only
+            have hmemV : (m, n) ∈ V := hc m n (by rw [hl]; rfl) hflag
+            have hlen := dropKey_length hmemV
+            have hc' : CoverS p { σ with vflag := (m, n) :: σ.vflag } (dropKey (m, n) V) := by
+              intro m' n' hl' hc''
+              have hne : (m', n') ≠ (m, n) := by
+                intro heq
+                rw [heq] at hc''
+                simp at hc''
+              have h2 : σ.vflag.contains (m', n') = false := by
+                simp only [List.contains_cons, Bool.or_eq_false_iff] at hc''
+                exact hc''.2
+              exact mem_dropKey (hc m' n' hl' h2) hne
+            have hmul : (dropKey (m, n) V).length * progWeight p + progWeight p ≤ V.length * progWeight p := by
+              have := Nat.mul_le_mul_right (progWeight p) hlen
+              rw [Nat.add_mul, Nat.one_mul] at this
+              exact this
+            have hpl : pname.length + 1 ≤ svcWeight s := by
+              unfold svcWeight; rw [hp]; simp only; omega
+            cases h : resolveSvc f p o m pname { σ with vflag := (m, n) :: σ.vflag } with
+            | ok x =>
+              obtain ⟨σ1, pk⟩ := x
+              exact forEach_ne_fuel _ (fun x σ' => hfuncs x σ') _ _
+            | err => intro hh; cases hh
+            | fuel => exact absurd h (iR m pname _ _ hc' (by omega))
+    · intro m name σ V hc hf
+      simp only [resolveSvc]
+      cases hl : lookupService p m name with
+      | some s =>
+        simp only
+        cases h : linkService f p o m name σ with
+        | ok σ1 => intro hh; cases hh
+        | err => intro hh; cases hh
+        | fuel => exact absurd h (iS m name σ V hc (by omega))
+      | none =>
+        simp only
+        cases hs : splitInclude name with
+        | none => intro h; cases h
+        | some pr =>
+          obtain ⟨mn, inm⟩ := pr
+          simp only
+          cases hi : lookupInclude p m mn with
+          | none => intro h; cases h
+          | some m' =>
+            have := splitInclude_length hs
+            exact iR m' inm σ V hc (by omega)
+
+theorem applyOrder_nil (ord : List Name) : applyOrder ord [] = [] := by
+  unfold applyOrder
+  have : ord.filter (fun n => ([] : List Name).contains n) = [] := by
+    induction ord with
+    | nil => rfl
+    | cons a l ih => simp
+  rw [this]
+  rfl
+
+theorem linkBound_types (p : GProg) : (allTypeKeys p).length * progWeight p + progWeight p +
+    (allSvcKeys p).length * progWeight p + 1 < linkBound p := by
+  unfold linkBound
+  rw [Nat.add_mul, Nat.add_mul]
+  omega
+
+theorem linkModule_ne_fuel (p : GProg) (ht : TypesOnly p) (o : Orders) (pre : Bool) (fuel m : Nat) (σ : St)
+    (hf : linkBound p ≤ fuel) : linkModule fuel p o pre m σ ≠ .fuel := by
+  have hb := linkBound_types p
+  obtain ⟨_, iNamed, _⟩ := typesTotal p ht fuel
+  have hconsts : (modAt p m).consts = [] := by
+    by_cases hne : modAt p m = Mod.empty
+    · rw [hne]; rfl
+    · exact (typesOnly_mod ht (modAt_mem hne).2).1
+  have hnamed : ∀ n σ', linkNamed fuel p m n σ' ≠ .fuel := fun n σ' =>
+    (iNamed m n σ' (allTypeKeys p) (allTypeKeys_cover p σ') (by omega)).ne_fuel
+  have hfuncs : ∀ n σ', linkFuncsOf fuel p o m n σ' ≠ .fuel := by
+    intro n σ'
+    unfold linkFuncsOf
+    cases hl : lookupService p m n with
+    | none => intro h; cases h
+    | some s =>
+      simp only
+      have hw := svcWeight_lt hl
+      obtain ⟨_, hmod, hmem⟩ := lookupService_mod hl
+      apply forEach_ne_fuel
+      intro fname σ''
+      cases hfind : findFunc fname s.funcs with
+      | none => intro h; cases h
+      | some g =>
+        simp only
+        have hg := mem_of_findFunc hfind
+        have := funcWeight_le_svc hg
+        exact linkFunc_ne_fuel p ht fuel m n g σ'' ((typesOnly_mod ht hmod).2.2 n s hmem g hg) (by omega)
+  unfold linkModule
+  rw [hconsts]
+  simp only [List.map_nil, applyOrder_nil, forEach]
+  cases h1 : forEach (fun n σ' => linkNamed fuel p m n σ') (applyOrder (o.at m).types ((modAt p m).types.map (·.1))) σ with
+  | ok σ1 =>
+    simp only
+    cases h3 : prelinkFuncs fuel p o pre m (applyOrder (o.at m).services ((modAt p m).services.map (·.1))) σ1 with
+    | ok σ3 =>
+      simp only
+      cases h4 : forEach (fun n σ' => linkService fuel p o m n σ') (applyOrder (o.at m).services ((modAt p m).services.map (·.1))) σ3 with
+      | ok σ4 => simp only; split <;> (intro hh; cases hh)
+      | err => intro hh; cases hh
+      | fuel =>
+        exact absurd h4 (forEach_ne_fuel _ (fun n σ' =>
+          (svcTotal p ht o fuel).1 m n σ' (allSvcKeys p) (allSvcKeys_cover p σ') (by omega)) _ _)
+    | err => intro hh; cases hh
+    | fuel =>
+      exfalso
+      unfold prelinkFuncs at h3
+      split at h3
+      · exact forEach_ne_fuel _ hfuncs _ _ h3
+      · cases h3
+  | err => intro hh; cases hh
+  | fuel => exact absurd h1 (forEach_ne_fuel _ hnamed _ _)
+
+theorem walk_ne_fuel (p : GProg) (ht : TypesOnly p) (o : Orders) (pre : Bool) (fuel : Nat) (hf : linkBound p ≤ fuel) :
+    ∀ (wf : Nat) (q v : List Nat) (σ : St), walk fuel p o pre wf q v σ ≠ .fuel := by
+  intro wf
+  induction wf with
+  | zero => intro q v σ h; simp [walk] at h
+  | succ wf ih =>
+    intro q v σ
+    cases q with
+    | nil => intro h; simp [walk] at h
+    | cons m q =>
+      simp only [walk]
+      split
+      · exact ih _ _ _
+      · cases h : linkModule fuel p o pre m σ with
+        | ok σ1 => exact ih _ _ _
+        | err => intro hh; cases hh
+        | fuel => exact absurd h (linkModule_ne_fuel p ht o pre fuel m σ hf)
+
+/-- **Totality for programs without constants and defaults**, with the explicit bound
+`linkBound`: whatever the visit orders, with or without the hook's pre-linking. -/
+theorem compileWith_total_typesOnly {pre : Bool} {o : Orders} {src : Program} {p : GProg}
+    (hg : gather src = some p) (ht : TypesOnly p) :
+    ∀ fuel, linkBound p ≤ fuel → compileWith pre fuel o src ≠ .fuel := by
+  intro fuel hf
+  unfold compileWith
+  rw [hg]
+  simp only
+  cases h : walk fuel p o pre (walkFuel p) [0] [] St.init with
+  | ok σ => intro hh; cases hh
+  | err => intro hh; cases hh
+  | fuel => exact absurd h (walk_ne_fuel p ht o pre fuel hf _ _ _ _)
+
 end ThriftVerif.Compile
